@@ -261,6 +261,36 @@ func CondEdges(v ssa.Value) (tr, fa []Edge) {
 	return tr, fa
 }
 
+// DirectCondEdges is CondEdges restricted to the If instructions that test v
+// itself (possibly negated): no inference through and/or-combined booleans.
+func DirectCondEdges(v ssa.Value) (tr, fa []Edge) {
+	seen := map[ssa.Value]bool{}
+	var walk func(v ssa.Value, neg bool)
+	walk = func(v ssa.Value, neg bool) {
+		if seen[v] || v.Referrers() == nil {
+			return
+		}
+		seen[v] = true
+		for _, r := range *v.Referrers() {
+			switch r := r.(type) {
+			case *ssa.If:
+				t, f := Edge{From: r.Block(), Idx: 0}, Edge{From: r.Block(), Idx: 1}
+				if neg {
+					t, f = f, t
+				}
+				tr = append(tr, t)
+				fa = append(fa, f)
+			case *ssa.UnOp:
+				if r.Op == token.NOT {
+					walk(r, !neg)
+				}
+			}
+		}
+	}
+	walk(v, false)
+	return tr, fa
+}
+
 // ErrEv describes how the error result of one call is consumed.
 type ErrEv struct {
 	Call     ssa.CallInstruction
